@@ -186,7 +186,11 @@ class Gen:
                          ("1_700_000_000", None), ("1.7e9", None), ("%d.0" % T0, None), ("0x%x" % T0, None), ("%de0" % T0, None),
                          ("9223372036854775807", None), ("9223372036854775808", None), ("-9223372036854775808", None),
                          ("-9223372036854775809", None), ("99999999999999999999999999", None), ("+", None), ("-", None), ("++%d" % T0, None),
-                         ("+-%d" % T0, None), ("%d " % T0 + "1", None), ("١٧", None), ("0", 0), ("-0", 0), ("+0", 1)):
+                         ("+-%d" % T0, None), ("%d " % T0 + "1", None), ("١٧", None), ("0", 0), ("-0", 0), ("+0", 1),
+                         # correctly signed, but further from the clock than a time.Duration can express (Sub saturates at +-2^63 ns)
+                         (str(T0 + 9_223_372_036), None), (str(T0 + 9_223_372_037), None), (str(T0 + 9_300_000_000), None),
+                         ("11010254400", None), ("99999999999", None), (str(T0 - 9_223_372_037), None), (str(T0 - 9_300_000_000), None),
+                         ("-99999999999", None), ("253402300800", None)):
             tt = txt.encode("utf-8") if any(ord(c) > 255 for c in txt) else txt
             r = self.signed(route, ts_text=txt if isinstance(tt, str) else None, body=base_body)
             if not isinstance(tt, str):
